@@ -127,10 +127,12 @@ package xmlenc
 //@ -- emitted cipher value is IV || ciphertext (the W3C xmlenc layout)
 //@ assert@call[C10,C08] CryptBlocks #1 (mode cipher.BlockMode, dst []byte, src []byte) pads_plaintext:
 //@    len(src) >= len(plaintext) && forall(0, len(plaintext), func(k int) bool { return src[k] == plaintext[k] })
-//@ assert@call[C10,C08] Read #2 (r io.Reader, p []byte) uses iv []byte, block cipher.Block iv_drawn_here:
-//@    sameSlice(p, iv) && len(p) == block.BlockSize()
+//@ -- (whichever read of the random source fills it: the reads are not counted, a helper may do the others)
+//@ ghost func DrawnHere(p []byte) bool
+//@ derive@call[C10,C08] Read #each (r io.Reader, p []byte) iv_drawn_here:
+//@    r == RandReader |- DrawnHere(p)
 //@ assert@call[C10,C08] NewCBCEncrypter #1 (b cipher.Block, ivArg []byte) uses iv []byte fresh_iv:
-//@    len(ivArg) == b.BlockSize() && sameSlice(ivArg, iv)
+//@    len(ivArg) == b.BlockSize() && sameSlice(ivArg, iv) && DrawnHere(ivArg)
 //@ assert@call[C10,C08] EncodeToString #1 (enc *base64.Encoding, out []byte) uses iv []byte, padded=plaintext []byte iv_prefix:
 //@    len(out) == len(iv) + len(padded) && forall(0, len(iv), func(k int) bool { return out[k] == iv[k] })
 
@@ -146,10 +148,10 @@ package xmlenc
 //@ requires[cfg] cert: certOK(certificate)
 //@ ensures[C08,C10] nonnil: err == nil ==> result != nil
 //@ -- the content-encryption key is drawn in this call, wrapped, and handed to the block cipher
-//@ assert@call[C10,C08] Read #1 (r io.Reader, p []byte) uses key []byte key_drawn_here:
-//@    sameSlice(p, key) && len(p) == e.BlockCipher.KeySize()
+//@ derive@call[C10,C08] Read #each (r io.Reader, p []byte) key_drawn_here:
+//@    r == RandReader |- DrawnHere(p)
 //@ assert@call[C10,C08] field:xmlenc.RSA.keyEncrypter #1 (fn func(RSA, *rsa.PublicKey, []byte) ([]byte, error), ea RSA, pk *rsa.PublicKey, k []byte) uses key []byte wraps_fresh_key:
-//@    sameSlice(k, key) && len(k) == e.BlockCipher.KeySize()
+//@    sameSlice(k, key) && len(k) == e.BlockCipher.KeySize() && DrawnHere(k)
 //@ assert@call[C10,C08] Encrypt #1 (bc BlockCipher, k interface{}, pt []byte) uses key []byte encrypts_with_that_key:
 //@    keyIs(k, key) && sameSlice(pt, plaintext)
 
